@@ -1,0 +1,69 @@
+// SPDX-License-Identifier: Apache-2.0
+
+//! Verification hooks, compiled only with the `verif-hooks` cargo feature.
+//!
+//! Nothing in here changes behaviour: `lock_point` is a no-op until an external
+//! controller registers a callback, and the validator accessors only evaluate the
+//! crate's own (crate-private) header validators on caller supplied bytes.
+
+use std::sync::{Mutex, OnceLock, TryLockError};
+
+use vm_memory::ByteValued;
+
+use super::gpu_message::{GpuBackendReq, VhostUserGpuMsgHeader};
+use super::message::{BackendReq, FrontendReq, VhostUserMsgHeader, VhostUserMsgValidator};
+
+/// Callback invoked right before an endpoint mutex is acquired.
+///
+/// The first argument names the call site, the second one tells whether the mutex could be
+/// acquired right now without blocking.
+pub type LockPointFn = dyn Fn(&'static str, &dyn Fn() -> bool) + Send + Sync;
+
+static LOCK_POINT: OnceLock<Box<LockPointFn>> = OnceLock::new();
+
+/// Register the process wide lock-point callback (first registration wins).
+pub fn set_lock_point(cb: Box<LockPointFn>) -> bool {
+    LOCK_POINT.set(cb).is_ok()
+}
+
+/// Called by the endpoints right before they acquire their connection mutex.
+#[inline]
+pub fn lock_point<T>(site: &'static str, m: &Mutex<T>) {
+    if let Some(cb) = LOCK_POINT.get() {
+        cb(site, &|| {
+            !matches!(m.try_lock(), Err(TryLockError::WouldBlock))
+        });
+    }
+}
+
+/// Header channel selector for [`header_is_valid`].
+#[derive(Clone, Copy, Debug, PartialEq, Eq)]
+pub enum HeaderChannel {
+    /// Frontend -> backend requests and their replies.
+    Frontend,
+    /// Backend -> frontend requests and their replies.
+    Backend,
+    /// vhost-user-gpu channel.
+    Gpu,
+}
+
+/// Evaluate the crate's header validator of `channel` on 12 raw header bytes.
+pub fn header_is_valid(channel: HeaderChannel, bytes: &[u8; 12]) -> bool {
+    match channel {
+        HeaderChannel::Frontend => {
+            let mut h = VhostUserMsgHeader::<FrontendReq>::default();
+            h.as_mut_slice().copy_from_slice(bytes);
+            h.is_valid()
+        }
+        HeaderChannel::Backend => {
+            let mut h = VhostUserMsgHeader::<BackendReq>::default();
+            h.as_mut_slice().copy_from_slice(bytes);
+            h.is_valid()
+        }
+        HeaderChannel::Gpu => {
+            let mut h = VhostUserGpuMsgHeader::<GpuBackendReq>::default();
+            h.as_mut_slice().copy_from_slice(bytes);
+            h.is_valid()
+        }
+    }
+}
